@@ -460,7 +460,7 @@ def _rand_coef(rnd):
 def _rand_species(rnd, used):
     n_el = rnd.choice([1, 1, 2, 2, 3, 3, 4, 4])
     syms = rnd.sample(tc.PERIODIC, n_el + 2)
-    els = [[s, _rand_count(rnd)] for s in syms[:n_el]]
+    els = [[tc.recase(s, rnd.choice(['XX', 'xx'])) if rnd.random() < 0.12 else s, _rand_count(rnd)] for s in syms[:n_el]]
     for s in syms[n_el:]:
         if rnd.random() < 0.25:                     # zero-count entries are omitted by the writer
             els.insert(rnd.randint(0, len(els)), [s, 0])
@@ -563,12 +563,14 @@ def _design_and_cases(ctx, caseset):
                               env={'SHARD': k, 'NSHARD': nshard, 'CASESET': caseset}, timeout=900)
         return d
 
-    with cf.ThreadPoolExecutor(max_workers=len(MODELS) + nshard) as ex:
-        mf = [ex.submit(model, m) for m in MODELS]
+    models = [(('MC_Thermdat_repaired_quick', m[1], m[2], 4) if ctx.quick and m[0] == 'MC_Thermdat_repaired' else m)
+              for m in MODELS]
+    with cf.ThreadPoolExecutor(max_workers=len(models) + nshard) as ex:
+        mf = [ex.submit(model, m) for m in models]
         gf = [ex.submit(gen, k) for k in range(nshard)]
         mres = [f.result() for f in mf]
         cases = [c for f in gf for c in f.result()]
-    for (cfg, ok, viol, _w), r in zip(MODELS, mres):
+    for (cfg, ok, viol, _w), r in zip(models, mres):
         ctx.count('states', r.distinct)
         ctx.count('transitions', r.states)
         ctx.coverage.setdefault('models', []).append(
